@@ -3,10 +3,10 @@
 re-verifying each one in a scratch worktree (tools/verify_mutant.sh)."""
 import json, os, shutil, subprocess, sys, glob, re
 V = os.path.dirname(os.path.dirname(os.path.abspath(__file__)))
-for d in sorted(glob.glob("/tmp/wt/C*/out/mutant*") + glob.glob("/tmp/wt2/C*/out/mutant*")):
+for d in sorted(glob.glob("/tmp/wt/C*/out/mutant*") + glob.glob("/tmp/wt2/C*/out/mutant*") + glob.glob("/tmp/wt4/C*/out/mutant*")):
     pid = d.split("/")[3]; n = re.search(r"mutant(\d+)", d).group(1)
-    wave2 = d.startswith("/tmp/wt2/")
-    dst = os.path.join(V, "seeded", ("%s-w2m%s" if wave2 else "%s-m%s") % (pid, n))
+    wave2 = d.startswith("/tmp/wt2/") or d.startswith("/tmp/wt4/")
+    dst = os.path.join(V, "seeded", ("%s-w3m%s" if d.startswith("/tmp/wt4/") else "%s-w2m%s" if wave2 else "%s-m%s") % (pid, n))
     if os.path.exists(os.path.join(dst, "meta.json")) and "--force" not in sys.argv:
         continue
     if not os.path.exists(os.path.join(d, "patch.diff")) or not os.path.exists(os.path.join(d, "demo.rs")):
@@ -24,7 +24,7 @@ for d in sorted(glob.glob("/tmp/wt/C*/out/mutant*") + glob.glob("/tmp/wt2/C*/out
     shutil.copy(os.path.join(d, "patch.diff"), dst); shutil.copy(os.path.join(d, "demo.rs"), dst)
     notes = open(os.path.join(d, "notes.md")).read() if os.path.exists(os.path.join(d, "notes.md")) else ""
     open(os.path.join(dst, "notes.md"), "w").write(notes)
-    meta = {"property": pid, "mutant": int(n), "source": "independent sub-agent given only the property text and a scratch worktree" + (" (second round: asked for history-dependent / harder-to-detect changes)" if wave2 else ""),
+    meta = {"property": pid, "mutant": int(n), "source": "independent sub-agent given only the property text and a scratch worktree" + (" (third round: asked for API corners and cooperating sites, told what had been tried)" if d.startswith("/tmp/wt4/") else " (second round: asked for history-dependent / harder-to-detect changes)" if wave2 else ""),
             "needs_to_manifest": notes.strip().splitlines()[:12],
             "confirmed_by": "tools/verify_mutant.sh in a scratch worktree (removed afterwards)",
             "ran": {"cargo test --offline --test demo on clean tree": "ok",
